@@ -31,10 +31,22 @@ Script ==
     [] ScriptName = "same_ctx_removes" ->
          << <<"gen", 1, A(1)>>, <<"gen", 1, A(2)>>, <<"dlv", 2, 1>>, <<"dlv", 2, 2>>,
             <<"gen", 2, RA({1})>>, <<"gen", 2, RA({2})>> >>
+    \* the same, removes issued in the opposite order: at a replica that has only the FIRST add, the remove of the
+    \* absent member becomes pending first and the remove of the present member then meets an existing pending entry
+    [] ScriptName = "same_ctx_removes_rev" ->
+         << <<"gen", 1, A(1)>>, <<"gen", 1, A(2)>>, <<"dlv", 2, 1>>, <<"dlv", 2, 2>>,
+            <<"gen", 2, RA({2})>>, <<"gen", 2, RA({1})>> >>
     \* KF-18a shape: two pending removes (of DIFFERENT members) whose contexts collapse after a reset (4 actors)
     [] ScriptName = "collapsing_pending" ->
          << <<"gen", 1, [c |-> "addall", m |-> 0, ms |-> {1, 2}]>>, <<"dlv", 2, 1>>, <<"gen", 2, R(1)>>,
             <<"dlv", 3, 1>>, <<"gen", 3, A(2)>>, <<"gen", 3, R(2)>>, <<"dlv", 4, 2>>, <<"dlv", 4, 3>> >>
+    \* replica 4 knows four actors and holds two pending removes of different members whose contexts, {A:2} and {A:2,B:1},
+    \* differ only in a dot it has seen; both wait for the same add (A:2).  Replica 3 has not seen that add either, so
+    \* merges between 3 and 4 leave both removes pending (anything that normalises or re-keys the pending table shows here)
+    [] ScriptName = "nested_pending_four_actors" ->
+         << <<"gen", 1, A(1)>>, <<"gen", 1, [c |-> "addall", m |-> 0, ms |-> {1, 2}]>>, <<"dlv", 2, 1>>, <<"dlv", 2, 2>>,
+            <<"gen", 2, A(2)>>, <<"gen", 2, R(1)>>, <<"gen", 2, R(2)>>, <<"gen", 3, A(3)>>, <<"gen", 4, A(3)>>,
+            <<"dlv", 4, 1>>, <<"dlv", 4, 3>>, <<"dlv", 4, 4>>, <<"dlv", 4, 5>>, <<"dlv", 4, 6>> >>
     \* four actors witness the same member concurrently (shapes that need four distinct actors on one element)
     [] ScriptName = "four_adders" ->
          << <<"gen", 1, A(1)>>, <<"gen", 2, A(1)>>, <<"gen", 3, A(1)>>, <<"gen", 4, A(1)>> >>
